@@ -414,6 +414,27 @@ func intrinsicTable0() map[string]func(ex *Exec, f *Frame, call *ssa.Call, args 
 			a, b := args[0].(SliceV), args[1].(SliceV)
 			return Or(Eq(a.Arr, Int(0)), Eq(b.Arr, Int(0)), Ne(a.Arr, b.Arr)), reach
 		},
+		// verifRandDrawn(s): s holds exactly the octets of one successful draw from the
+		// system random source made during this execution
+		"verifRandDrawn": func(ex *Exec, f *Frame, call *ssa.Call, args []Value, reach *Term) (Value, *Term) {
+			s := args[0].(SliceV)
+			var alts []*Term
+			for _, d := range ex.randDraws {
+				alts = append(alts, And(d.reach, d.ok, ex.contentEq(s, SliceV{Arr: d.src, Off: Int(0), Len: d.n, Cap: d.n, Elem: s.Elem})))
+			}
+			return Or(alts...), reach
+		},
+		// verifRandFailed(): some read of the system random source failed during this execution
+		"verifRandFailed": func(ex *Exec, f *Frame, call *ssa.Call, args []Value, reach *Term) (Value, *Term) {
+			var alts []*Term
+			for _, d := range ex.randDraws {
+				alts = append(alts, And(d.reach, Not(d.ok)))
+			}
+			for _, d := range ex.randIntFail {
+				alts = append(alts, d)
+			}
+			return Or(alts...), reach
+		},
 		"verifFresh": func(ex *Exec, f *Frame, call *ssa.Call, args []Value, reach *Term) (Value, *Term) {
 			// true iff the slice is empty or its array was allocated during this execution
 			s := args[0].(SliceV)
